@@ -1,14 +1,15 @@
 #!/bin/bash
 # usage: run.sh PROP m1 m2 ...   (mutants applied to /tmp/wt_c17m one at a time)
+# needs two scratch worktrees of /repo: /tmp/wt_c17m (mutated) and /tmp/wt_c17dev (clean): git -C /repo worktree add --detach <path> HEAD
 PROP=$1; shift
 export VERIF_JOBS=6
 for m in "$@"; do
   git -C /tmp/wt_c17m checkout -q -- . ; git -C /tmp/wt_c17m clean -fdq
-  /venv/bin/python /tmp/c17mut/$m.py /tmp/wt_c17m || { echo "$m: patch failed"; continue; }
+  /venv/bin/python $(dirname "$0")/$m.py /tmp/wt_c17m || { echo "$m: patch failed"; continue; }
   ( cd /tmp/wt_c17m && timeout 300 /venv/bin/python -m pytest -q -p no:cacheprovider --timeout=900 2>&1 | tail -1 )
   rm -f /verif/replays/$PROP-quick-*.json
-  ( cd /verif && VERIF_REPO=/tmp/wt_c17m ./check $PROP quick > /tmp/c17mut/$m.$PROP.log 2>&1; echo "$m: exit $?" )
-  grep -c VIOLATION /tmp/c17mut/$m.$PROP.log; tail -1 /tmp/c17mut/$m.$PROP.log
+  ( cd /verif && VERIF_REPO=/tmp/wt_c17m ./check $PROP quick > /tmp/mut_$m.$PROP.log 2>&1; echo "$m: exit $?" )
+  grep -c VIOLATION /tmp/mut_$m.$PROP.log; tail -1 /tmp/mut_$m.$PROP.log
   r=$(ls /verif/replays/$PROP-quick-*-0.json 2>/dev/null | head -1)
   if [ -n "$r" ]; then
     /venv/bin/python -c "import json;b=json.load(open('$r'));print('  sig', b.get('signature'), b.get('kind'))"
